@@ -110,6 +110,54 @@ CLAIMED = {
   note="Trusted: Lean kernel, model validated by rows, harness. The sender rule (validate_sender_signature_key_from_prior_epoch) is checked by the oracle only. "
        "Noted: SQLite accepts retention 0 and then keeps nothing (sql_ret_zero_keeps_nothing), the in-memory provider rejects 0.",
   ref="DESIGN.md §4 C06/C19"),
+ "C01": dict(
+  technique="Lean 4 proof (tree-layer model: receivers compute the committer's tree and open the committer's seal; KeyInv for every reachable world; deterministic derivations) + random-history correspondence and agreement oracle",
+  text="Theorems MlsVerif.Props.C01 (assembled from the tree layer, C11 and C13): the tree a receiver computes from the announced update path is the committer's tree; the "
+       "ciphertext a receiver opens is one the committer sealed to a node whose key the receiver holds (so it enters the path-secret chain at the committer's value and, by "
+       "chain_meets, ends at the committer's commit secret); the key schedule is a function of its inputs (and equals the RFC formulas, C13); in every reachable world every "
+       "member holds exactly its entitled keys; the epoch moves by one. Tie: ~7.5k rows per quick run from random histories on the real library (commit = tree transformation, "
+       "receivers' and joiners' private slots, key invariant) replayed on the compiled tree model, plus the direct oracle on real members after every commit: equal context, "
+       "exported tree, roster, epoch authenticator, exported secret, epoch = previous + 1, cross-decryption of application messages.",
+  note="Trusted: Lean kernel; hand-written tree model validated by the stream; harness oracles. Not a theorem: success of the real HPKE open (C14 covers the construction), the "
+       "transcript-hash chain over real messages, mixed cipher suites/providers (quick uses RustCrypto suite 1). Fixed defects found by this check: F1, F15.",
+  ref="DESIGN.md §4 C01/C09"),
+ "C02": dict(
+  technique="Lean 4 proof (seal recipients = filtered copath resolutions of the new tree; a removed member's keys occur nowhere later) + recorded hpke_seal recipients and ghost members on real histories",
+  text="Theorems MlsVerif.Props.C02: every path-secret seal of encap goes to a non-blank node in the resolution of the copath child in the NEW tree and never to a leaf added by the "
+       "same commit (seal_recipients_in_resolution, seals_exact); after a removal none of the stamps the removed member held occurs anywhere in the tree, and no seal of any later "
+       "encap targets a key it holds (removed_keys_gone, removed_cannot_open_seals); resolution facts. Tie: the tree stream compares the model's recipient sets with the recipients of "
+       "every real hpke_seal issued while a commit is built (recording CipherSuiteProvider, classified by the EncryptContext label); joiner secrets must go to init keys only; every "
+       "removed member's retained Group is fed all later commits and must reject them.",
+  note="Trusted: Lean kernel, tree model validated by the stream, recording wrapper. 'Learns nothing' is symbolic: it follows from removed_cannot_open_seals under free-term crypto; "
+       "side condition FreshKeys (a Remove plus an Add re-using the removed member's HPKE key is accepted by the model and the code: readd_same_key).",
+  ref="DESIGN.md §4 C02"),
+ "C07": dict(
+  technique="Lean 4 proof (joiner placement and KeyInv of the state derived from the Welcome path secret; key-package deletion ordered last) + joiner scenarios on real clients",
+  text="Theorems MlsVerif.Props.C07: the j-th added member sits at the j-th leftmost blank leaf with its key package's leaf node, and the private state it derives from the Welcome "
+       "path secret satisfies KeyInv in the committer's tree, for every position relative to the committer and several joiners; the key-package deletion is the last fallible step of the "
+       "generated write_to_storage list. Tie: `joiner`/`slots` rows of the tree stream; scenarios on real clients: joiner state == committer state (context, tree, authenticator, "
+       "exporter), immediate send/commit, key package gone after the first write and Welcome not reusable, foreign client / stale GroupInfo refused, external commit and a commit by the "
+       "external joiner, re-join after removal with the same storage.",
+  note="Trusted: Lean kernel, models validated by rows, harness. Recorded known finding F14 (re-join with storage holding earlier prior epochs -> InvalidEpoch on the next commit). "
+       "Last-resort key packages need a cargo feature the default build lacks: not exercised. External-commit joins are checked by the oracle only.",
+  ref="DESIGN.md §4 C07"),
+ "C08": dict(
+  technique="Lean 4 proof (shape, trimming, leftmost placement, unmerged-list and uniqueness invariants for every reachable tree) + observer validation and independent tree-hash recomputation on real histories",
+  text="Theorems MlsVerif.Props.C08 on the tree model: no trailing blank after batchEdit / encap / applyUpdatePath, added leaves occupy the leftmost blank slots in order (incl. soundness of "
+       "the `start` shortcut), ShapeInv / UnmergedInv / UniqInv / NonEmptyInv preserved by every operation, hence WF for every reachable tree (reachable_trees_wf). Tie: tree stream; direct "
+       "oracle after every commit: the exported tree + GroupInfo pass ExternalClient::observe_group (the full validation of an outsider: tree hash, parent hashes, unmerged leaves, leaf "
+       "validity) and every joiner's validation, and the tree hash in every member's context equals a from-scratch recursive recomputation written in the harness.",
+  note="PARTIAL, stated: validity of the parent-hash chains for all histories (TreeSync) and coherence of the incremental tree-hash cache are NOT proved; they are decided only by the "
+       "oracle above on the explored histories. Trusted: Lean kernel, tree model validated by the stream, harness.",
+  ref="DESIGN.md §4 C08"),
+ "C09": dict(
+  technique="Lean 4 proof (KeyInv preserved by every commit for committer, receivers, updated members and joiners; decap position agreement; fresh path keys) + private-slot correspondence and seal/open probes",
+  text="Theorems MlsVerif.Props.C09: encap_keyinv, decap_keyinv / decap_succeeds / decap_position_agrees (the resolution lemma), joiner_keyinv, provisional_keyinv, fresh_path_keys, "
+       "no_stale_leaf_key, and reachable_world_good: in every world reachable from a one-member group every member holds exactly the keys of the non-blank nodes on its direct path at "
+       "which it is not unmerged, and they are the keys stored at those nodes. Tie: `slots` / `recv` / `joiner` rows (the real private-key slot occupancy of every member after every commit vs "
+       "the model); direct oracle: each stored private key opens a fresh hpke_seal to the node's public key, none for blank nodes, none missing, fresh keys on the committer's path.",
+  note="Trusted: Lean kernel, tree model validated by the stream, harness. Side conditions made explicit by the proofs: NonEmptyInv (a filtered path node is blank), fresh stamps.",
+  ref="DESIGN.md §4 C01/C09"),
 }
 PENDING_REASON = "check not built yet in this session (planned, see DESIGN.md §8); not claimed until its check exists"
 
